@@ -66,6 +66,54 @@ def analyse(ctx, replace=None, only=None):
     table(R, P, fns)
 
 
+FRONT = {"aws_linked_list_front", "aws_linked_list_begin"}   # the same node for a non-empty list (linked_list.inl)
+BACK = {"aws_linked_list_back", "aws_linked_list_rbegin"}
+
+
+def chase(f, n, use=None):
+    """where a value comes from, seen through casts, temporaries, AWS_CONTAINER_OF arithmetic, `->prev`, `->key` and the
+    list accessors: (tokens, final object string)"""
+    toks = []
+    for _ in range(12):
+        n = RU.origin(f, n, use) if n is not None else None
+        if n is None:
+            break
+        if n["k"] == "member" and n["f"] in ("key", "prev", "value"):
+            toks.append(n["f"])
+            n = n["a"][0]
+        elif n["k"] == "bin" and n["op"] in ("-", "+") and f.is_const(n["a"][1]) is not None:
+            n = n["a"][0]  # container_of: (T *)((uint8_t *)x - offsetof(T, node))
+        elif n["k"] == "un" and n["op"] == "addr":
+            m = f.d(n["a"][0])
+            if m is not None and m["k"] == "member" and m["f"] == "node":
+                n = m["a"][0]
+                toks.append("&node")
+            else:
+                break
+        elif n["k"] == "call" and n.get("callee") in FRONT | BACK | {"aws_linked_hash_table_get_iteration_list"}:
+            toks.append(n["callee"])
+            n = RU.arg(f, n, 0)
+        else:
+            break
+    obj = f.show(RU.strip_addr(f, n)) if n is not None else None
+    return toks, obj
+
+
+def list_nonempty_guard(f, c_, p_, table="cache->table"):
+    """the decision `the iteration list of <table> is not empty` (aws_linked_list_empty false, or begin != end)"""
+    cc, neg = RU.cond_call(f, c_)
+    if cc is not None and cc.get("callee") == "aws_linked_list_empty" and (p_ == neg):
+        t_, o_ = chase(f, RU.arg(f, cc, 0))
+        return t_ == ["aws_linked_hash_table_get_iteration_list"] and o_ == table
+    g_ = RU.cmp_norm(f, c_, p_)
+    if g_ and g_[2] is not None and g_[1] == "!=":
+        l_, r_ = RU.uncast(f, g_[0]), RU.uncast(f, g_[2])
+        cs = sorted((x.get("callee") or "") for x in (l_, r_) if x is not None and x["k"] == "call")
+        if cs == ["aws_linked_list_begin", "aws_linked_list_end"]:
+            return all(chase(f, RU.arg(f, x, 0)) == (["aws_linked_hash_table_get_iteration_list"], table) for x in (l_, r_))
+    return False
+
+
 def caches(R, P, fns):
     for name, end, via_prev in (("s_fifo_cache_put", "aws_linked_list_front", False), ("s_lru_cache_put", "aws_linked_list_front", False), ("s_lifo_cache_put", "aws_linked_list_back", True)):
         f = fns[name]
@@ -92,12 +140,14 @@ def caches(R, P, fns):
             if not g:
                 kinds.append("?")
                 continue
-            l, op, r = RU.uncast(f, g[0]), g[1], RU.uncast(f, g[2]) if g[2] is not None else None
+            l, op, r = RU.origin(f, g[0], rem[0]), g[1], RU.origin(f, g[2], rem[0]) if g[2] is not None else None
             ls, rs = f.show(l), f.show(r) if r is not None else None
             if r is not None and op == ">" and l["k"] == "call" and l.get("callee") == "aws_linked_hash_table_get_element_count" and argstr(f, l, 0) == "cache->table" and rs == "cache->max_items":
                 kinds.append("overflow")
-            elif r is not None and op == "<" and r["k"] == "call" and r.get("callee") == "aws_linked_hash_table_get_element_count" and ls == "cache->max_items":
+            elif r is not None and op == "<" and r["k"] == "call" and r.get("callee") == "aws_linked_hash_table_get_element_count" and argstr(f, r, 0) == "cache->table" and ls == "cache->max_items":
                 kinds.append("overflow")
+            elif list_nonempty_guard(f, c, p):
+                kinds.append("list-not-empty")  # implied by count > max_items: never skips an eviction
             elif via_prev and l["k"] == "member" and l["f"] == "prev" and l.get("rec") == "aws_linked_list_node" and op == "!=" and (r is None or f.is_const(r) == 0):
                 kinds.append("has-predecessor")
             else:
@@ -108,29 +158,11 @@ def caches(R, P, fns):
         R.check(not extra, "EVICT", "%s:always-on-overflow" % name, where(f, rem[0]), "no further condition: every overflow evicts",
                 "the eviction is subject to an extra condition %s: an overflowing cache can keep more than max_items entries" % extra)
         # victim provenance
-        key = RU.uncast(f, RU.arg(f, rem[0].node, 1))
-        ok = False
-        why = "removed key is %s" % f.show(key)
-        if key is not None and key["k"] == "member" and key["f"] == "key" and key.get("rec") == "aws_linked_hash_table_node":
-            tn = RU.uncast(f, key["a"][0])
-            init = decl_init(f, tn["n"]) if tn["k"] == "var" else None
-            src = None
-            if init is not None:
-                # AWS_CONTAINER_OF(x, ...) = (T *)((uint8_t *)x - offsetof)
-                for y in f.walk(init, follow_refs=True):
-                    if y["k"] == "var" or (y["k"] == "member" and y["f"] == "prev"):
-                        src = y
-                        break
-            if src is not None:
-                nodev = src if src["k"] == "var" else RU.uncast(f, src["a"][0])
-                goes_prev = src["k"] == "member"
-                ninit = decl_init(f, nodev["n"]) if nodev is not None and nodev["k"] == "var" else None
-                if ninit is not None and ninit["k"] == "call" and ninit.get("callee") == end and goes_prev == via_prev:
-                    lv = RU.uncast(f, RU.arg(f, ninit, 0))
-                    linit = decl_init(f, lv["n"]) if lv is not None and lv["k"] == "var" else None
-                    if linit is not None and linit["k"] == "call" and linit.get("callee") == "aws_linked_hash_table_get_iteration_list" and argstr(f, linit, 0) == "cache->table":
-                        ok = True
-                why = "victim derives from %s(%s)%s" % ((ninit or {}).get("callee"), f.show(RU.arg(f, ninit, 0)) if ninit is not None and ninit["k"] == "call" else "?", "->prev" if goes_prev else "")
+        toks, obj = chase(f, RU.arg(f, rem[0].node, 1), rem[0])
+        ends = FRONT if end == "aws_linked_list_front" else BACK
+        want_shape = len(toks) >= 3 and toks[0] == "key" and toks[-1] == "aws_linked_hash_table_get_iteration_list" and toks[-2] in ends and (toks[1:-2] == (["prev"] if via_prev else []))
+        ok = want_shape and obj == "cache->table"
+        why = "the removed key comes from %s of %s" % (" <- ".join(toks), obj)
         R.check(ok and argstr(f, rem[0].node, 0) == "cache->table", "VICTIM", name, where(f, rem[0]), "victim is the key of %s(iteration list)%s of the same table" % (end, "->prev" if via_prev else ""),
                 "the evicted key does not come from %s of this cache's iteration list%s (%s): the wrong entry is evicted" % (end, "->prev" if via_prev else "", why))
     # POLICY
@@ -151,18 +183,33 @@ def caches(R, P, fns):
     R.check(not f.calls({"aws_linked_list_remove", "aws_linked_list_push_back", "aws_linked_hash_table_move_node_to_end_of_list"}), "POLICY", "plain-find-keeps-order", "%s()" % f.name, "plain find does not touch the list")
     f = fns["aws_linked_hash_table_find_and_move_to_back"]
     mv = f.calls("aws_linked_hash_table_move_node_to_end_of_list")
-    R.check(len(mv) == 1 and argstr(f, mv[0].node, 1, addr=False) in ("linked_node", "element->value"), "POLICY", "find-and-move:moves-found-node", where(f, mv[0]) if mv else f.name, "the found node is moved to the back")
+    okmv = len(mv) == 1 and f.show(RU.origin(f, RU.arg(f, mv[0].node, 1), mv[0])) == "element->value"
+    if not mv:
+        # the same two steps written in place: unlink the found node, append it to this table's list
+        rm_, pb_ = f.calls("aws_linked_list_remove"), f.calls("aws_linked_list_push_back")
+        if len(rm_) == 1 and len(pb_) == 1 and ev_dominates(f, rm_[0], pb_[0]):
+            t1, o1 = chase(f, RU.arg(f, rm_[0].node, 0), rm_[0])
+            t2, o2 = chase(f, RU.arg(f, pb_[0].node, 1), pb_[0])
+            okmv = t1 == t2 == ["&node", "value"] and o1 == o2 == "element" and argstr(f, pb_[0].node, 0) == "table->list"
+            mv = pb_
+    R.check(okmv, "POLICY", "find-and-move:moves-found-node", where(f, mv[0]) if mv else f.name, "the found node is moved to the back")
     f = fns["s_lru_cache_use_lru_element"]
-    fr = f.calls("aws_linked_list_front")
+    fr = f.calls(FRONT)
     mv = f.calls("aws_linked_hash_table_move_node_to_end_of_list")
-    R.check(len(fr) == 1 and len(mv) == 1 and not f.calls("aws_linked_list_back"), "POLICY", "use-lru:front-to-back", "%s()" % f.name, "use-lru takes the front and moves it to the back")
+    fr = [e for e in fr if not any(e.node is RU.uncast(f, x) for b_ in f.blocks.values() if b_.cond is not None for x in (f.d(b_.cond) or {}).get("a", []))]  # (begin == end is the emptiness test)
+    R.check(len(fr) == 1 and len(mv) == 1 and not f.calls(BACK), "POLICY", "use-lru:front-to-back", "%s()" % f.name, "use-lru takes the front and moves it to the back")
     # a lookup / use counts as a use whatever the entry holds and however full the cache is: the move depends only on
     # `an entry was found` (find-and-move) / `the list is not empty` (use-lru)
     for fname, allowed in (("aws_linked_hash_table_find_and_move_to_back", {"err_val", "element"}), ("s_lru_cache_use_lru_element", {"list", "aws_linked_list_empty", "cache", "table"})):
         g_ = fns[fname]
-        for e in g_.calls("aws_linked_hash_table_move_node_to_end_of_list"):
+        movers = g_.calls("aws_linked_hash_table_move_node_to_end_of_list") or g_.calls("aws_linked_list_push_back")
+        for e in movers:
             extra = []
             for c_, p_, b_ in RU.guards(g_, e):
+                if fname == "s_lru_cache_use_lru_element" and list_nonempty_guard(g_, c_, p_, "lru_cache->table"):
+                    continue
+                if fname == "s_lru_cache_use_lru_element" and list_nonempty_guard(g_, c_, p_, "cache->table"):
+                    continue
                 names = {x.get("n") or x.get("f") or x.get("callee") for x in g_.walk(g_.d(c_), follow_refs=True) if x["k"] in ("var", "member", "call")}
                 names.discard(None)
                 if not names <= allowed | {"lru_cache", "impl"}:
@@ -187,7 +234,9 @@ def caches(R, P, fns):
                         "%s forwards its parameters to aws_linked_hash_table_init in the wrong positions (%s): keys are destroyed with the value destructor and values with the key destructor" % (cn, ", ".join(wrong)))
         R.require(n_c >= 3, "only %d cache constructors calling aws_linked_hash_table_init found" % n_c)
     f = fns["s_lru_cache_get_mru_element"]
-    R.check(len(f.calls("aws_linked_list_back")) == 1 and not f.calls({"aws_linked_list_front", "aws_linked_hash_table_move_node_to_end_of_list"}), "POLICY", "get-mru:reads-back", "%s()" % f.name, "get-mru reads the back without reordering")
+    bk_ = f.calls(BACK)
+    fr_ = [e for e in f.calls(FRONT) if not any(e.node is RU.uncast(f, x) for b_ in f.blocks.values() if b_.cond is not None for x in (f.d(b_.cond) or {}).get("a", []))]
+    R.check(len(bk_) == 1 and not fr_ and not f.calls("aws_linked_hash_table_move_node_to_end_of_list"), "POLICY", "get-mru:reads-back", "%s()" % f.name, "get-mru reads the back without reordering")
     f = fns["aws_linked_hash_table_move_node_to_end_of_list"]
     rm, pb = f.calls("aws_linked_list_remove"), f.calls("aws_linked_list_push_back")
     R.check(len(rm) == 1 and len(pb) == 1 and ev_dominates(f, rm[0], pb[0]) and argstr(f, rm[0].node, 0) == argstr(f, pb[0].node, 1) == "node->node" and argstr(f, pb[0].node, 0) == "table->list", "POLICY",
